@@ -189,9 +189,42 @@ def _pinit():
     logging.disable(logging.CRITICAL)
 
 
-def pmap(func, items, workers=16, chunksize=8):
-    """Run func over items in worker processes (each imports proxy from the tree under test).  Order is preserved."""
+class Hung:
+    """Result of a job that did not return within the watchdog time: the code under test was still running (an endless
+    loop in the proxy is a finding, not something a check may hang on).  `where` is the innermost stack at that moment."""
+
+    def __init__(self, item, where):
+        self.item = item
+        self.where = where
+
+
+class _Watchdog(BaseException):
+    pass
+
+
+def _guarded(arg):
+    import signal
+    func, item, secs = arg
+
+    def on_alarm(sig, frm):
+        raise _Watchdog(''.join(traceback.format_stack(frm)[-6:]))
+    signal.signal(signal.SIGALRM, on_alarm)
+    signal.alarm(secs)
+    try:
+        return func(item)
+    except _Watchdog as w:
+        return Hung(item, str(w))
+    finally:
+        signal.alarm(0)
+
+
+def pmap(func, items, workers=16, chunksize=8, watchdog=None):
+    """Run func over items in worker processes (each imports proxy from the tree under test).  Order is preserved.
+    With watchdog=<seconds> a job still running after that long yields a Hung object in its place."""
     from concurrent.futures import ProcessPoolExecutor
+    if watchdog:
+        items = [(func, x, watchdog) for x in items]
+        func = _guarded
     if len(items) < 32:
         return [func(x) for x in items]
     with ProcessPoolExecutor(workers, initializer=_pinit) as ex:
